@@ -69,6 +69,21 @@ def ev(e, env):
         return True
     if isinstance(e, ast.Call) and isinstance(e.func, ast.Name) and e.func.id == "bool" and len(e.args) == 1:
         return bool(ev(e.args[0], env))
+    if isinstance(e, ast.Subscript):
+        d = ast.unparse(e)
+        if d in env:
+            return env[d]
+        raise EvUnk(f"subscript {d}")
+    if isinstance(e, ast.BinOp) and isinstance(e.op, (ast.Add, ast.Sub, ast.Mult)):
+        l, r = ev(e.left, env), ev(e.right, env)
+        if isinstance(l, (int, bool)) and isinstance(r, (int, bool)):
+            return {ast.Add: lambda: l + r, ast.Sub: lambda: l - r, ast.Mult: lambda: l * r}[type(e.op)]()
+        raise EvUnk("arithmetic on non-integers")
+    if isinstance(e, ast.Call) and isinstance(e.func, ast.Name) and e.func.id in ("min", "max") and e.args and not e.keywords:
+        vs = [ev(a, env) for a in e.args]
+        if all(isinstance(v, (int, bool)) for v in vs):
+            return (min if e.func.id == "min" else max)(vs)
+        raise EvUnk("min/max of non-integers")
     raise EvUnk(ast.dump(e)[:60])
 
 
